@@ -1403,14 +1403,28 @@ class Ctx:
         STATS["solver_s"] += time.time() - t0
         return r
 
-    def entails(self, goal, quick=False):
-        """True iff goal follows from the path facts (unsat of the negation)."""
+    def entails(self, goal, quick=False, patient=False):
+        """True iff goal follows from the path facts (unsat of the negation).  `patient`: a final proof goal - an
+        `unknown` (time-out, e.g. on a loaded machine) is retried once with four times the budget, so that verdicts
+        do not depend on the load; a refuted goal answers `sat` quickly and is not affected."""
         if isinstance(goal, bool):
             return goal
         goal = z3.simplify(goal)
         if z3.is_true(goal):
             return True
-        return self.check(z3.Not(goal), quick=quick or self.quick_mode) == z3.unsat
+        r = self.check(z3.Not(goal), quick=quick or self.quick_mode)
+        if r == z3.unknown and patient and not (quick or self.quick_mode):
+            s2 = z3.Solver()
+            s2.set("timeout", SOLVER_TIMEOUT_MS * 8)
+            s2.add(self.solver.assertions())
+            s2.add(z3.Not(goal))
+            t0 = time.time()
+            r = s2.check()
+            STATS["patient_retries"] = STATS.get("patient_retries", 0) + 1
+            STATS["solver_s"] += time.time() - t0
+            if r == z3.sat:
+                self._last_model = s2.model()
+        return r == z3.unsat
 
     def model_for(self, *extra):
         r = self.check(*extra)
